@@ -10,6 +10,7 @@ import (
 	"path/filepath"
 	"strings"
 	"syscall"
+	"unicode/utf8"
 )
 
 var (
@@ -39,9 +40,10 @@ func IterateDirTree(name string, visitor func(string) (proceed bool, err error))
 			create = true
 			lastIndex = max(i, 1) // root element should be visible
 		}
-		if i == len(name)-1 {
+		// i is a byte offset: the last rune may be wider than a single byte
+		if _, width := utf8.DecodeRuneInString(name[i:]); i+width == len(name) {
 			create = true
-			lastIndex = i + 1
+			lastIndex = len(name)
 		}
 
 		if create {
